@@ -79,6 +79,20 @@ def compare_node(sig, what, node, ref, testnet):
     st_, xpub = call(node.extended_public_key)
     if st_ == "exc" or xpub != ref.xpub(vpub):
         raise Violation(sig + "/xpub-string", "%s extended_public_key() = %r, expected %s" % (what, xpub, ref.xpub(vpub)))
+    # the same object asked for another SLIP-132 flavour and then for the default again
+    v84 = R.VERSION_OF[("pub", testnet, 84)]
+    st_, zp = call(node.extended_public_key, version=v84)
+    if st_ == "exc" or zp != ref.xpub(v84):
+        raise Violation(sig + "/xpub-string[other-version]", "%s extended_public_key(version=%#x) = %r, expected %s" % (what, v84, zp, ref.xpub(v84)))
+    st_, xpub2 = call(node.extended_public_key)
+    if st_ == "exc" or xpub2 != ref.xpub(vpub):
+        raise Violation(sig + "/xpub-string[default-after-other-version]", "%s extended_public_key() after another version was asked "
+                        "for = %r, expected %s" % (what, xpub2, ref.xpub(vpub)))
+    v49 = R.VERSION_OF[("prv", testnet, 49)]
+    st_, yp = call(node.extended_private_key, version=v49)
+    st2, xprv2 = call(node.extended_private_key)
+    if st_ == "exc" or yp != ref.xprv(v49) or st2 == "exc" or xprv2 != ref.xprv(vprv):
+        raise Violation(sig + "/xprv-string[other-version]", "%s extended_private_key(version=%#x) = %r, then default = %r" % (what, v49, yp, xprv2))
 
 
 def check_step(case, ctx):
@@ -117,6 +131,33 @@ def check_step(case, ctx):
             compare_node("C01/bulk-straddling", "generate_children((2^31-2, 2^31+2))[%d]" % j, kid, rk, p["testnet"])
     # same scalar with another chain code, same chain code with another scalar, in the same process
     Prv = _impl()
+    # public nodes whose 32 key bytes after the prefix EQUAL this parent's secret bytes (the secret read as an x coordinate,
+    # both parities) are used in the same process; then the private parent derives again
+    from vlib.ref import secp as _secp
+    from btc_hd_wallet.bip32 import PubKeyNode as _Pub
+    if p["k"] < _secp.P and _secp.lift_x(p["k"], False) is not None:
+        for pref in (b"\x02", b"\x03"):
+            pubtwin = _Pub(key=pref + p["k"].to_bytes(32, "big"), chain_code=p["c"], index=p["index"], depth=p["depth"],
+                           testnet=p["testnet"], parent_fingerprint=p["pfp"])
+            call(pubtwin.fingerprint)
+            st_t, tx = call(lambda: pubtwin.ckd(i % H).extended_public_key())
+            # the twin is an ordinary public parent: its own child is judged too (whichever of the look-alikes came first)
+            tpt = _secp.lift_x(p["k"], pref == b"\x03")
+            try:
+                trc = R.ckd_pub(R.Node(None, tpt, p["c"], p["depth"], p["index"], p["pfp"]), i % H)
+            except R.Invalid:
+                trc = None
+            if trc is not None and (st_t == "exc" or tx != trc.xpub(versions(p["testnet"])[1])):
+                raise Violation("C01/sibling-public-x/public-twin", "public parent %s||k (k = this case's secret bytes read as x): child "
+                                "%d serialises as %r, expected %s" % (pref.hex(), i % H, tx, trc.xpub(versions(p["testnet"])[1])))
+        ctx.count("secret-bytes-also-used-as-public-x")
+        rc0 = R.ckd_priv(ref_parent(p), i)
+        node0 = Prv(key=p["k"].to_bytes(32, "big"), chain_code=p["c"], index=p["index"], depth=p["depth"],
+                    testnet=p["testnet"], parent_fingerprint=p["pfp"])
+        st_, child = call(node0.ckd, i)
+        if st_ == "exc":
+            raise Violation("C01/step/raised", "ckd after a public node with the same key bytes was used raised %r" % (child,))
+        compare_node("C01/sibling-public-x", "ckd(%d) after public nodes 02||k and 03||k (k read as x) were used" % i, child, rc0, p["testnet"])
     for label, k2, c2 in (("other-chain-code", p["k"], bytes([p["c"][0] ^ 1]) + p["c"][1:]),
                           ("other-scalar", p["k"] % (N - 1) + 1, p["c"])):
         p2 = dict(p, k=k2, c=c2)
